@@ -176,26 +176,26 @@ CHECKS = {
 
 # what later rounds added to each check (appended to the level text)
 ADDENDA = {
-    'C01': ' Also: nesting at 19 depths from 100 to 100000 around the interpreter\'s recursion limits, a method returning a JSON-encodable value that is not in JSON normal form, dispatchers configured with pass-through middlewares / identity error handlers.',
-    'C02': ' Also: batches whose elements pass equal-valued arguments of different JSON types (1 / 1.0 / true), long batches at 21 lengths up to 1001, methods registered through each public route after they were first requested.',
-    'C03': ' Also: dispatchers with pass-through middlewares / identity handlers, deep nesting judged with the L5 leniency.',
-    'C04': ' Also: static and class methods of views, coroutine functions behind plain decorators.',
-    'C05': ' Also an aliasing oracle: containers of a deserialised message are modified in place and later deserialisations must be unaffected.',
-    'C06': ' Also the typed entry points (from_json on classes that have a code of their own, Response.from_json with such an error_cls).',
-    'C07': ' Also END TO END: the four real client backends (requests, httpx sync / async, aiohttp) through the three real web-framework integrations in-process; methods registered as coroutine-returning plain functions / callable objects / behind one shared decorator; a refused batch[...] repeated on the same wrapper.',
-    'C08': ' Also message-less / ill-typed error objects for registered codes and non-strict request containers.',
-    'C09': ' Also: two requests in a row through one long-lived client / strategy object, lenient clients whose transport hands back an error reply to a notification; a send beyond n+1 ends the execution and is reported.',
-    'C10': ' Also falsy / numeric ids and (not exhaustive over schedules) batches of 5..257 elements under three fixed completion orders.',
-    'C11': ' Also the four real client backends compared over 7 924 scripted HTTP answers (status x content type x body x raise_for_status x strict x default content type).',
-    'C12': ' Also requests failing with -32603 before the method body, the same handler / middleware object listed several times (identical and equal-but-distinct callables), suspending middlewares in concurrent batches.',
-    'C13': ' Also retention after cancelled asynchronous dispatches and 2-3 overlapping dispatch() calls on one AsyncDispatcher under every completion order.',
-    'C14': ' Also schemas that declare their dialect (draft-03 / -04 / -06 / -07 keywords), constraints in Annotated metadata, bodies that modify their arguments in place with every such call made twice, equal-comparing signatures under one validator.',
-    'C15': ' Also one decorator object applied to several functions, DEBUG logging switched on, names requested before they are registered through dispatcher.registry.',
-    'C16': ' Also opaque annotations (refusal accepted, omission not), error classes sharing a code, and the documents as SERVED by the aiohttp / flask integrations: every documented path#method is POSTed back to the same application and must reach its method.',
-    'C17': ' Also long-lived specification objects shared by all programs, method names differing only in separators / case (one open known finding), a context designated positionally under another name.',
-    'C18': ' Also charset / version parameters, request sequences of length 2-3 on one long-lived application (aiohttp replies read from what the response wrote to a recording payload writer), the process-wide default content type as a configuration.',
-    'C19': ' Also tracers whose handlers are instance attributes (set before / after the client is built) and two threads sharing one traced client under every schedule with <= 1/2 preemptions.',
-    'C20': ' Also callbacks that make nested calls through the same mocker (a watchdog turns an unanswered call into a violation) and by-name parameters called id / callback / method.',
+    'C01': ' Also: nesting at 19 depths from 100 to 100000 around the interpreter\'s recursion limits, a method returning a JSON-encodable value that is not in JSON normal form, dispatchers configured with pass-through middlewares / identity error handlers. Round 5: a truthy non-boolean concurrent_batch, deep values echoed back, no handler task left running when dispatch returns.',
+    'C02': ' Also: batches whose elements pass equal-valued arguments of different JSON types (1 / 1.0 / true), long batches at 21 lengths up to 1001, methods registered through each public route after they were first requested. Round 5: every method validated by one PydanticValidator (flavours sync-pd / async-pd), null arguments, deep values echoed back (L5 leniency).',
+    'C03': ' Also: dispatchers with pass-through middlewares / identity handlers, deep nesting judged with the L5 leniency. Round 5: each error response is read back through the client-side Response.from_json and compared with what the method raised.',
+    'C04': ' Also: static and class methods of views, coroutine functions behind plain decorators. Round 5: handlers registered as functools.partial objects and as instances of class based decorators.',
+    'C05': ' Also an aliasing oracle: containers of a deserialised message are modified in place and later deserialisations must be unaffected. Round 5: the server-side encoder class, messages nested inside other values, non-strict batch containers.',
+    'C06': ' Also the typed entry points (from_json on classes that have a code of their own, Response.from_json with such an error_cls). Round 5: has_error / is_notification must follow the contents after every (also refused) append / extend.',
+    'C07': ' Also END TO END: the four real client backends (requests, httpx sync / async, aiohttp) through the three real web-framework integrations in-process; methods registered as coroutine-returning plain functions / callable objects / behind one shared decorator; a refused batch[...] repeated on the same wrapper. Round 5: other endpoints added after the main one in every end-to-end application, a stateful view registered without context, hand-built non-strict batches.',
+    'C08': ' Also message-less / ill-typed error objects for registered codes and non-strict request containers. Round 5: result together with a falsy error member, batches extended through item access after add().',
+    'C09': ' Also: two requests in a row through one long-lived client / strategy object, lenient clients whose transport hands back an error reply to a notification; a send beyond n+1 ends the execution and is reported. Round 5: a listed code in the reserved server-error range, not-JSON / not-a-response / identity failures as attempts, and the PHYSICAL sends of the real requests backend with its default session (the call into urllib3\'s connection pool is the scripted environment).',
+    'C10': ' Also falsy / numeric ids and (not exhaustive over schedules) batches of 5..257 elements under three fixed completion orders. Round 5: coroutine-returning plain functions, a code-specific rewriting handler next to the generic one, per-element context variables set by a middleware.',
+    'C11': ' Also the four real client backends compared over 7 924 scripted HTTP answers (status x content type x body x raise_for_status x strict x default content type). Round 5: differences in later requests of one long-lived client are part of the comparison.',
+    'C12': ' Also requests failing with -32603 before the method body, the same handler / middleware object listed several times (identical and equal-but-distinct callables), suspending middlewares in concurrent batches. Round 5: error handlers that return Futures.',
+    'C13': ' Also retention after cancelled asynchronous dispatches and 2-3 overlapping dispatch() calls on one AsyncDispatcher under every completion order. Round 5: two middlewares on every dispatcher (thread schedules cover the very first dispatches), retention of the framework\'s request objects through the werkzeug / aiohttp integrations, handlers that come and go while the process-wide default validator lives on.',
+    'C14': ' Also schemas that declare their dialect (draft-03 / -04 / -06 / -07 keywords), constraints in Annotated metadata, bodies that modify their arguments in place with every such call made twice, equal-comparing signatures under one validator. Round 5: context-only / parameterless methods called in turn with params omitted / [] / {}.',
+    'C15': ' Also one decorator object applied to several functions, DEBUG logging switched on, names requested before they are registered through dispatcher.registry. Round 5: names re-registered through each public route after they had been called, a registered view method whose constructor fails for the request.',
+    'C16': ' Also opaque annotations (refusal accepted, omission not), error classes sharing a code, and the documents as SERVED by the aiohttp / flask integrations: every documented path#method is POSTed back to the same application and must reach its method. Round 5: an extension mounted on a blueprint with a url prefix, several specifications served by one aiohttp application, two threads generating from one specification object (E5 at function-entry granularity).',
+    'C17': ' Also long-lived specification objects shared by all programs, method names differing only in separators / case (one open known finding), a context designated positionally under another name. Round 5: static / class methods of views, one long-lived pydantic validator for all programs.',
+    'C18': ' Also charset / version parameters, request sequences of length 2-3 on one long-lived application (aiohttp replies read from what the response wrote to a recording payload writer), the process-wide default content type as a configuration. Round 5: unbindable-parameter bodies, Accept / other request headers, a result with keys of several types (open known finding for flask\'s main endpoint), two threads posting to one werkzeug / flask application under every schedule with <= 1/2 preemptions.',
+    'C19': ' Also tracers whose handlers are instance attributes (set before / after the client is built) and two threads sharing one traced client under every schedule with <= 1/2 preemptions. Round 5: the library\'s LoggingTracer among the tracers, a transport re-raising one stored exception object, parameters that cannot be serialised, concurrent asynchronous attempts sharing one trace context under every completion order.',
+    'C20': ' Also callbacks that make nested calls through the same mocker (a watchdog turns an unanswered call into a violation) and by-name parameters called id / callback / method. Round 5: batches of one element, the real client backends under the mocker with 12 differently spelled endpoint urls.',
 }
 
 NOT_YET = 'check not built yet (planned, see DESIGN.md section 5)'
